@@ -45,14 +45,15 @@ Section Spec.
 
   (* ---- all_iters: every level's list is what a separate run limited to that level returns ---------------------- *)
   Section Truncation.
-    (* C12 (truncation) for the per-conformer function: a query at level k of a run to level L >= k equals a query at
-       level k of a run limited to level k *)
-    Hypothesis fprint_truncation : forall o b c L k, 0 <= k <= L -> fprint o b c L k = fprint o b c k k.
-
+    (* the premise `fprint_truncation` is C12 (truncation) for the per-conformer function, needed only for the level cap
+       L of the call: a successful query at level k of the run to level L equals the query at level k of a run limited
+       to level k (Proofs/PipelineM1.v discharges it for model M1) *)
     Lemma all_iters_spec fs (m : mol conformer) (a : fargs opts) L k :
       let bits := normal_bits (a_bits a) in
       let N := cutoff (a_first a) (length (mconfs m)) in
       let a_k := mkfargs (a_bits a) (Some k) (a_first a) (a_opts a) (a_out_dir_base a) (a_out_ext a) false false (a_overwrite a) in
+      (forall c i x, In c (firstn N (mconfs m)) -> 0 <= i <= L ->
+                     fprint (a_opts a) bits c L i = Ok x -> fprint (a_opts a) bits c i i = Ok x) ->
       a_level a = Some L -> 0 <= k <= L -> a_all_iters a = true -> a_save a = false ->
       mconfs m <> [] -> (1 <= N)%nat ->
       fp_init (a_opts a) bits L = Ok tt -> fp_init (a_opts a) bits k = Ok tt ->
@@ -62,7 +63,7 @@ Section Spec.
         o_val (dict_from_mol fs m a) = Ok d /\ o_val (dict_from_mol fs m a_k) = Ok dk /\
         dict_get d k = Some (col (firstn N (mconfs m)) k) /\ dict_get dk k = dict_get d k.
     Proof.
-      intros bits N a_k HL Hk Hai Hs Hc HN Hi Hik Hf Hn.
+      intros bits N a_k fprint_truncation HL Hk Hai Hs Hc HN Hi Hik Hf Hn.
       assert (HP : firstn N (mconfs m) <> []) by (apply firstn_nonempty; assumption).
       assert (Hlev : level_range L true = zrange (L + 1)).
       { unfold level_range, single_level. destruct (L =? -1) eqn:E; [lia|reflexivity]. }
@@ -80,8 +81,7 @@ Section Spec.
         unfold expected_dict. destruct (firstn N (mconfs m)) as [|p0 P'] eqn:EP; [congruence|].
         rewrite (dict_get_map (col (p0 :: P')) (zrange (L + 1)) k) by (apply zrange_in; lia).
         split; [reflexivity|]. simpl. rewrite Z.eqb_refl. reflexivity.
-      - intros c i Hc' [<-|[]]. transitivity (fprint (a_opts a) bits c L k);
-          [symmetry; exact (fprint_truncation (a_opts a) bits c L k Hk)|apply Hf; [exact Hc'|lia]].
+      - intros c i Hc' [<-|[]]. apply (fprint_truncation c k (g c k) Hc' Hk). apply Hf; [exact Hc'|lia].
     Qed.
   End Truncation.
 
@@ -176,7 +176,7 @@ Section Spec.
     (forall c k, In c (firstn N (mconfs m)) -> In k levels -> fprint (a_opts a) bits c level k = Ok (g c k)) ->
     (forall j, namer (effective_name conformer m) j = Ok (nmf j)) ->
     dict_from_mol fs m a
-    = match save_dict content pickle fs files level (a_all_iters a) (expd levels (firstn N (mconfs m))) with
+    = match save_dict content pickle fs files level (a_all_iters a) (a_overwrite a) (expd levels (firstn N (mconfs m))) with
       | Ok fs' => mkout (Ok (expd levels (firstn N (mconfs m)))) fs' (Some (Z.of_nat N))
       | Raises e => mkout (Raises e) fs (Some (Z.of_nat N))
       end.
@@ -190,46 +190,78 @@ Section Spec.
     replace (Z.of_nat N - 1 + 1) with (Z.of_nat N) by lia. reflexivity.
   Qed.
 
-  Lemma save_single fs f0 rest level ai P :
+  Lemma save_single fs f0 rest level ai ow P :
     single_level level ai = true -> P <> [] ->
-    save_dict content pickle fs (f0 :: rest) level ai (expd (level_range level ai) P)
+    save_dict content pickle fs (f0 :: rest) level ai ow (expd (level_range level ai) P)
     = Ok (fs_write fs (f0, pickle (col P level))).
   Proof.
     intros Hs HP. unfold save_dict, level_range. rewrite Hs. unfold expected_dict.
     destruct P as [|p0 P']; [congruence|]. simpl. rewrite Z.eqb_refl. reflexivity.
   Qed.
 
-  Lemma save_multi fs b file level P :
+  (* the all_iters save loop, with its per-file exists test on the running state, performs the planned writes whose file
+     did not exist before the loop (or all of them with overwrite) *)
+  Definition level_plan (d : fdict) (l : list (path * Z)) : list (path * content) :=
+    flat_map (fun f_i => match dict_get d (snd f_i) with Some c => [(fst f_i, pickle c)] | None => [] end) l.
+
+  Lemma level_plan_fst d l w : In w (level_plan d l) -> In (fst w) (map fst l).
+  Proof.
+    induction l as [|[p i] t IH]; simpl; [tauto|]. intro H. apply in_app_or in H. destruct H as [H|H]; [|auto].
+    destruct (dict_get d i); [destruct H as [<-|[]]; auto|destruct H].
+  Qed.
+
+  Lemma fold_save_filter d ow (l : list (path * Z)) : forall acc,
+    NoDup (map fst l) ->
+    fold_left (fun acc0 (f_i : path * Z) =>
+                 match dict_get d (snd f_i) with
+                 | Some c => if fs_isfile acc0 (fst f_i) && negb ow then acc0 else fs_write acc0 (fst f_i, pickle c)
+                 | None => acc0
+                 end) l acc
+    = fs_writes acc (filter (fs_keep ow acc) (level_plan d l)).
+  Proof.
+    induction l as [|[p i] t IH]; intros acc Hnd; [reflexivity|]. inversion Hnd as [|? ? Hp Hnd']; subst.
+    cbn [fold_left fst snd level_plan flat_map].
+    change (flat_map (fun f_i : path * Z => match dict_get d (snd f_i) with Some c => [(fst f_i, pickle c)] | None => [] end) t)
+      with (level_plan d t).
+    destruct (dict_get d i) as [c|].
+    - cbn [app filter]. unfold fs_keep at 1. cbn [fst].
+      destruct (fs_isfile acc p && negb ow) eqn:E; cbn [negb].
+      + apply IH. exact Hnd'.
+      + rewrite (IH _ Hnd'). unfold fs_writes. cbn [fold_left]. f_equal.
+        apply keep_ext. intros w Hw. apply isfile_write_other. cbn [fst]. intro Q. apply Hp. rewrite <- Q. eapply level_plan_fst; eauto.
+    - cbn [app]. apply IH. exact Hnd'.
+  Qed.
+
+  Lemma save_multi fs b file level ow P :
     0 <= level -> P <> [] ->
     let mk : Z -> path := fun i => ((b ++ dec i)%string, file) in
     let ws := map (fun i => (mk i, pickle (col P i))) (zrange (level + 1)) in
-    save_dict content pickle fs (map mk (zrange (level + 1))) level true (expd (level_range level true) P)
-    = Ok (fs_writes fs ws) /\ NoDup (map fst ws).
+    save_dict content pickle fs (map mk (zrange (level + 1))) level true ow (expd (level_range level true) P)
+    = Ok (fs_writes fs (filter (fs_keep ow fs) ws)) /\ NoDup (map fst ws).
   Proof.
     intros Hl HP mk ws.
     assert (Hs : single_level level true = false).
     { unfold single_level. destruct (level =? -1) eqn:E; [lia|reflexivity]. }
-    unfold save_dict, level_range. rewrite Hs. split.
-    - f_equal. rewrite combine_map_self. unfold expected_dict. destruct P as [|p0 P']; [congruence|].
-      subst ws. unfold fs_writes.
-      assert (G : forall r acc, (forall i, In i r -> In i (zrange (level + 1))) ->
-                fold_left (fun acc0 (f_i : path * Z) =>
-                             match dict_get (map (fun k => (k, col (p0 :: P') k)) (zrange (level + 1))) (snd f_i) with
-                             | Some l => fs_write acc0 (fst f_i, pickle l)
-                             | None => acc0
-                             end) (map (fun i => (mk i, i)) r) acc
-                = fold_left fs_write (map (fun i => (mk i, pickle (col (p0 :: P') i))) r) acc).
-      { induction r as [|i r IH]; intros acc Hin; simpl; [reflexivity|].
-        rewrite (dict_get_map (col (p0 :: P')) (zrange (level + 1)) i) by (apply Hin; simpl; auto).
-        apply IH. intros; apply Hin; simpl; auto. }
-      apply G. auto.
-    - subst ws. rewrite map_map. simpl.
-      assert (G : forall r, NoDup r -> (forall i, In i r -> 0 <= i) -> NoDup (map mk r)).
+    assert (Hnd : NoDup (map mk (zrange (level + 1)))).
+    { assert (G : forall r, NoDup r -> (forall i, In i r -> 0 <= i) -> NoDup (map mk r)).
       { induction r as [|i r IH]; intros Hnd Hpos; simpl; constructor.
         - inversion Hnd as [|? ? Hi Hnd']; subst. intro Q. apply in_map_iff in Q. destruct Q as (i' & E & Hi').
           inversion E as [E']. apply append_inj_l in E'. apply dec_injective in E'; [subst; contradiction| |]; apply Hpos; simpl; auto.
         - inversion Hnd; subst. apply IH; [assumption|intros; apply Hpos; simpl; auto]. }
-      apply G; [apply zrange_from_nodup|intros i Hi; apply zrange_in in Hi; lia].
+      apply G; [apply zrange_from_nodup|intros i Hi; apply zrange_in in Hi; lia]. }
+    split.
+    - unfold save_dict, level_range. rewrite Hs. f_equal. rewrite combine_map_self.
+      rewrite fold_save_filter by (rewrite map_map; simpl; exact Hnd). f_equal. f_equal.
+      subst ws. unfold level_plan, expected_dict. destruct P as [|p0 P']; [congruence|].
+      assert (G : forall r, (forall i, In i r -> In i (zrange (level + 1))) ->
+                flat_map (fun f_i : path * Z => match dict_get (map (fun k => (k, col (p0 :: P') k)) (zrange (level + 1))) (snd f_i) with
+                                                | Some c => [(fst f_i, pickle c)] | None => [] end) (map (fun i => (mk i, i)) r)
+                = map (fun i => (mk i, pickle (col (p0 :: P') i))) r).
+      { induction r as [|i r IH]; intro Hin; simpl; [reflexivity|].
+        rewrite (dict_get_map (col (p0 :: P')) (zrange (level + 1)) i) by (apply Hin; simpl; auto).
+        simpl. f_equal. apply IH. intros; apply Hin; simpl; auto. }
+      apply G. auto.
+    - subst ws. rewrite map_map. simpl. exact Hnd.
   Qed.
 
   (* ---- dict_spec for a plainly named molecule: conformer j is called <name>_<j> ------------------------------------- *)
@@ -306,7 +338,7 @@ Section Spec.
       assert (Hd : expd (level_range level (a_all_iters a)) P = [(level, col P level)]).
       { unfold level_range. rewrite Hsl. unfold expected_dict. destruct P; [congruence|reflexivity]. }
       subst out. rewrite (dict_save_spec fs m a nm [file] Hs Hnm Hfiles Hex' Hc Hi Hf Hn).
-      pose proof (save_single fs file [] level (a_all_iters a) P Hsl HP) as E1.
+      pose proof (save_single fs file [] level (a_all_iters a) (a_overwrite a) P Hsl HP) as E1.
       cbv zeta. unfold P, N, level in *. rewrite E1.
       rewrite Hd. simpl. repeat split.
       - exists (pickle (col P level)). rewrite path_eqb_refl. auto.
@@ -329,7 +361,10 @@ Section Spec.
       exists d, o_val out = Ok d /\
       forall k, 0 <= k <= L ->
         dict_get d k = Some (col P k) /\
-        exists c, fs_lookup (o_fs out) (file k) = Some c /\ unpickle c = Some (col P k).
+        (* a level file that existed is left untouched (overwrite off); every other one is written and reloads *)
+        (fs_isfile fs (file k) && negb (a_overwrite a) = true -> fs_lookup (o_fs out) (file k) = fs_lookup fs (file k)) /\
+        (fs_isfile fs (file k) && negb (a_overwrite a) = false ->
+         exists c, fs_lookup (o_fs out) (file k) = Some c /\ unpickle c = Some (col P k)).
     Proof.
       intros bits N P file Hs Hnm Hai HL HL0 Hb Hex Hc HN Hi Hf Hn out.
       assert (HP : P <> []) by (apply firstn_nonempty; assumption).
@@ -346,14 +381,14 @@ Section Spec.
       specialize (Q Hex Hc Hi).
       subst out. rewrite Q; [|intros c k Hc' Hk; apply Hf; [exact Hc'|apply zrange_in in Hk; lia]|exact Hn].
       fold N. fold P.
-      destruct (save_multi fs b (nm ++ a_out_ext a)%string L P HL0 HP) as [Esave Hnd].
+      destruct (save_multi fs b (nm ++ a_out_ext a)%string L (a_overwrite a) P HL0 HP) as [Esave Hnd].
       rewrite Hlr in Esave. cbv zeta in Esave, Hnd. unfold file, P, N in *. rewrite Esave.
       exists (expd (zrange (L + 1)) P). split; [reflexivity|]. intros k Hk.
       assert (Hin : In k (zrange (L + 1))) by (apply zrange_in; lia).
-      split.
-      - apply dict_get_expected; [exact HP|exact Hin].
-      - exists (pickle (col (firstn (cutoff (a_first a) (length (mconfs m))) (mconfs m)) k)). split; [|apply unpickle_pickle].
-        simpl o_fs. apply lookup_writes_in; [exact Hnd|].
+      split; [apply dict_get_expected; [exact HP|exact Hin]|]. simpl o_fs. split.
+      - intro E. apply lookup_kept_writes_existing. exact E.
+      - intro E. exists (pickle (col (firstn (cutoff (a_first a) (length (mconfs m))) (mconfs m)) k)). split; [|apply unpickle_pickle].
+        apply lookup_kept_writes_new; [exact Hnd| |exact E].
         apply in_map_iff. exists k. split; [reflexivity|exact Hin].
     Qed.
   End Reload.
